@@ -14,6 +14,13 @@ func c14Specs(tier string) []*Spec {
 		specs = append(specs, &Spec{ID: "C14", Name: name, Cfg: cfg, Keys: keys, Vals: bs("x"), MaxDepth: depth, MaxMaint: maint,
 			Alphabet: a.Ops, Oracles: []Oracle{oracleVersions([]byte("a"))}, Strict: true})
 	}
+	// deletions that are refused because a version of the range is pinned by an open export: the bookkeeping of
+	// the refusing instance (and of a fresh one) is that of the unchanged history
+	addPins := func(name string, cfg Cfg, depth int) {
+		a := Alpha{Writes: true, NoRemove: true, Save: true, Exports: true, DelTo: true, MaxVersions: 4}
+		specs = append(specs, &Spec{ID: "C14", Name: name, Cfg: cfg, Keys: bs("a"), Vals: bs("x"), MaxDepth: depth, MaxMaint: 4, Weight: 4,
+			Alphabet: a.Ops, Oracles: []Oracle{oracleVersions([]byte("a"))}, Strict: true})
+	}
 	iv := func(n int64) Cfg { return Cfg{Fast: true, IVSet: true, IV: n} }
 	noFast := Cfg{Fast: false}
 	flush := Cfg{Fast: true, Flush: 150}
@@ -25,12 +32,15 @@ func c14Specs(tier string) []*Spec {
 		specs = append(specs, &Spec{ID: "C14", Name: "cold-tools/d6", Cfg: defaultCfg, Keys: keys, Vals: bs("x"), MaxDepth: 6, MaxMaint: 3, Weight: 8,
 			Alphabet: Alpha{Writes: true, Save: true, ColdDelTo: true, ColdDelFrom: true, MaxVersions: 3}.Ops, Oracles: []Oracle{oracleVersions([]byte("a"))}, Strict: true})
 		add("iv7-setter/d6", Cfg{Fast: true, IVSet: true, IV: 7, IVSetter: true}, 6, 3)
+		addPins("pins/d6", defaultCfg, 6)
 		add("nofast/d6", noFast, 6, 3)
 		add("flush150/d6", flush, 6, 3)
 		add("cache1000/d6", cache, 6, 3)
 		return specs
 	}
 	add("default/d8", defaultCfg, 8, 3)
+	addPins("pins/d8", defaultCfg, 8)
+	addPins("pins-nofast/d7", noFast, 7)
 	add("iv1/d7", iv(1), 7, 3)
 	add("iv7/d7", iv(7), 7, 3)
 	add("iv7-setter/d7", Cfg{Fast: true, IVSet: true, IV: 7, IVSetter: true}, 7, 3)
